@@ -36,6 +36,7 @@ int env = 0;      // how the environment reports it: 0 processors = threads = ch
 #define PGM_INDEX_VERIF_SEGMENT() verif::on_segment()
 
 #include "pgm/pgm_index.hpp"
+#include "pgm/pgm_index_variants.hpp"
 
 extern "C" int omp_get_num_procs(void) noexcept { return verif::env == 2 ? verif::chunks + 5 : verif::chunks; }
 extern "C" int omp_get_max_threads(void) noexcept { return verif::env == 1 ? verif::chunks + 3 : verif::chunks; }
@@ -329,6 +330,30 @@ struct Checker {
         delete idx;
     }
 
+    // CompressedPGMIndex builds its levels with the same builder: the bottom level with Epsilon, every upper level with EpsilonRecursive,
+    // each call maximal
+    template<size_t E, size_t R>
+    void check_compressed(const std::vector<K> &data, const std::string &desc) {
+        if constexpr (std::is_unsigned_v<K>) {
+            std::string cs = case_of(desc, E, ("compressed_R" + std::to_string(R)).c_str());
+            run.set_case(cs);
+            verif::reset<K>();
+            verif::logging = true;
+            try { pgm::CompressedPGMIndex<K, E, R, float> idx(data.begin(), data.end()); (void) idx.size_in_bytes(); }
+            catch (const std::exception &e) { verif::logging = false; run.violation(cs, std::string("CompressedPGMIndex construction threw: ") + e.what()); return; }
+            verif::logging = false;
+            run.add(cn.pgm_builds);
+            for (size_t i = 0; i < verif::calls.size(); ++i) {
+                auto &c = verif::calls[i];
+                run.add(cn.calls);
+                size_t want_eps = i == 0 ? E : R;
+                if (c.eps != want_eps) { run.violation(cs, "builder call #" + std::to_string(i) + " ran with epsilon " + std::to_string(c.eps) + ", expected " + std::to_string(want_eps)); return; }
+                if (i > 0) run.add(cn.upper_calls);
+                if (!check_maximality(c, cs)) return;
+            }
+        }
+    }
+
     void small_scope(size_t eps, int palette_id, int len, int first, int with_pgm) {
         auto pal = ks::palette<K>(palette_id);
         std::vector<K> data(len);
@@ -399,7 +424,8 @@ struct Checker {
         std::string desc = prefix + "family=" + spec.str();
         check_direct(data, eps, true, desc);
         if (with_pgm && prop == 4 && !is_float) {
-            if (eps == 1) check_pgm<1, 1>(data, desc);
+            if (eps == 1) { check_pgm<1, 1>(data, desc); check_compressed<1, 1>(data, desc); check_compressed<1, 128>(data, desc); }
+            if (eps == 8) check_compressed<8, 256>(data, desc);
             if (eps == 4) check_pgm<4, 2>(data, desc);
             if (eps == 8) check_pgm<8, 4>(data, desc);
         }
@@ -430,6 +456,9 @@ struct Checker {
             else if (mode == "pgm_R1" && eps == 2) check_pgm<2, 1>(data, desc);
             else if (mode == "pgm_R2" && eps == 4) check_pgm<4, 2>(data, desc);
             else if (mode == "pgm_R4" && eps == 8) check_pgm<8, 4>(data, desc);
+            else if (mode == "compressed_R1" && eps == 1) check_compressed<1, 1>(data, desc);
+            else if (mode == "compressed_R128" && eps == 1) check_compressed<1, 128>(data, desc);
+            else if (mode == "compressed_R256" && eps == 8) check_compressed<8, 256>(data, desc);
         }
     }
 };
